@@ -330,6 +330,13 @@ def op_table():
     op("div_scalar", "C01", ["T", -2.5], lambda M, F, a, b: a / b)
     op("rdiv_scalar", "C01", [1.5, "T"], lambda M, F, a, b: a / b, dom="nonzero")
     op("neg", "C01", ["T"], lambda M, F, a: -a)
+    # the functional forms (F.neg is NOT what the unary minus overload uses)
+    op("neg_fn", "C01", ["T"], lambda M, F, a: M.neg(a))
+    op("add_fn", "C01", ["T", "T"], lambda M, F, a, b: M.add(a, b))
+    op("mul_fn", "C01", ["T", "T"], lambda M, F, a, b: M.mul(a, b))
+    op("pow_fn_3", "C01", ["T"], lambda M, F, a: M.pow(a, 3))
+    op("pow_fn_-1.5", "C01", ["T"], lambda M, F, a: M.pow(a, -1.5), dom="pos")
+    op("rpow_fn_2.5", "C01", ["T"], lambda M, F, a: M.rpow(a, 2.5), tf=lambda M, F, a: M.pow(2.5, a))
     for n in (2, 3, 1, 0, -1, -2):
         op("pow_int_%d" % n, "C01", ["T"], (lambda n: lambda M, F, a: a ** n)(n), dom="nonzero")
     for n in (0.5, 2.5, -1.5, 2.0):
@@ -348,6 +355,7 @@ def op_table():
     op("relu", "C02", ["T"], lambda M, F, a: F.relu(a), dom="nonzero")
     op("leaky_relu_default", "C02", ["T"], lambda M, F, a: F.leaky_relu(a), dom="nonzero")
     op("leaky_relu_0.2", "C02", ["T"], lambda M, F, a: F.leaky_relu(a, 0.2), dom="nonzero")
+    op("leaky_relu_slope_1.5", "C02", ["T"], lambda M, F, a: F.leaky_relu(a, 1.5), dom="nonzero")   # any slope is accepted
     op("selu", "C02", ["T"], lambda M, F, a: F.selu(a), dom="nonzero")
     op("tanh", "C02", ["T"], lambda M, F, a: F.tanh(a), tf=lambda M, F, a: M.tanh(a))
     op("sigmoid", "C02", ["T"], lambda M, F, a: F.sigmoid(a), tf=lambda M, F, a: M.sigmoid(a))
@@ -359,8 +367,8 @@ def op_table():
     return t
 
 
-SHAPES1 = [(3, 4), (), (5,), (2, 1, 3)]
-SHAPES2 = [((3, 4), (3, 4)), ((3, 4), (4,)), ((3, 1), (1, 4)), ((2, 3), ()), ((), (2, 2)), ((), ())]
+SHAPES1 = [(), (3,), (3, 4), (2, 1, 3)]
+SHAPES2 = [((), ()), ((3,), (3,)), ((3, 4), (4,)), ((3, 1), (1, 4)), ((2, 3), ()), ((), (2, 2))]
 
 
 def draw(rng, np, shape, dom, dtype):
@@ -430,7 +438,8 @@ def torch_grads(impl, o, arrays, g):
     xs = [torch.tensor(a, requires_grad=(o["operands"][k] != "Y")) if isinstance(a, np.ndarray) else a for k, a in enumerate(arrays)]
     out = o["tf"](torch, torch.nn.functional, *xs)
     out.backward(torch.tensor(g))
-    return [x.grad.numpy() if (hasattr(x, "grad") and isinstance(x, torch.Tensor) and x.grad is not None) else None for x in xs]
+    grads = [x.grad.numpy() if (hasattr(x, "grad") and isinstance(x, torch.Tensor) and x.grad is not None) else None for x in xs]
+    return grads, out.detach().numpy()
 
 
 def disagree(np, got, ref, rtol, atol):
@@ -500,9 +509,19 @@ def judge_vjp(ctx, impl, o, arrays, g, dtype, worst=None):
         except Exception as ex:
             return ctx.witness(site, "backward-raises", desc, "forward accepted => backward(g) completes", {"raised": repr(ex)})
         fd = fd_grads(impl, o, arrays, g)
+        tg = tout = None
         try:
-            tg = torch_grads(impl, o, arrays, g)
+            r = torch_grads(impl, o, arrays, g)
+            if r is not None:
+                tg, tout = r
         except Exception as ex:
+            tg = None
+    # if the forward value already differs from PyTorch's, PyTorch differentiates another function: its gradient is then no
+    # reference for "the derivative of the function the forward pass computed" and finite differences decide alone
+    d_v = None
+    if tout is not None:
+        d_v = disagree(np, out, tout, *((1e-9, 1e-12) if dtype == np.float64 else (1e-4, 1e-5)))
+        if d_v:
             tg = None
     for k, a in enumerate(arrays):
         if not isinstance(a, np.ndarray) or o["operands"][k] == "Y":
@@ -521,7 +540,15 @@ def judge_vjp(ctx, impl, o, arrays, g, dtype, worst=None):
             return ctx.witness(site, "wrong-vjp", dict(desc, operand=k),
                                {"finite_differences": fd[k].tolist(), "torch": None if tg is None or tg[k] is None else np.asarray(tg[k]).tolist()},
                                {"grad": np.asarray(got).tolist(), "first_disagreement_fd": d_fd, "first_disagreement_torch": d_t},
-                               note="both references disagree with .grad beyond rtol=%g atol=%g" % (rtol, atol))
+                               note=("both references disagree with .grad beyond rtol=%g atol=%g" % (rtol, atol)) if not d_v else
+                               "finite differences of the implementation's own forward disagree with .grad (PyTorch computes a different forward value here, so it is not a reference)")
+    # the forward value itself against the reference implementation: not part of the VJP statement, but the overload
+    # theorems (expansion = mathematical operation) are about it and a broken one needs a concrete input
+    if tout is not None:
+        if d_v and ctx.witness(site.replace("/backward", "/forward"), "forward-value", desc, {"torch_forward": np.asarray(tout).tolist()},
+                               {"forward": np.asarray(out).tolist(), "first_disagreement": d_v},
+                               note="forward result differs from the reference semantics (PyTorch); reported because a theorem about the computed function broke or as additional evidence"):
+            return True
     return False
 
 
@@ -615,6 +642,7 @@ def run_part(ctx, props_file, part=None, oracle=True):
     if T is not None:
         selfcheck(ctx, T)
     ctx.build_props(props_rel=props_file, extra_targets=EXTRA_TARGETS)
+    reparse_axioms(ctx)
     if "Interval" not in " ".join(ctx.trusted) and part == "C09":
         ctx.trusted.append("coq-interval tactic (one constant fact, exp 88 < FLT_MAX < exp 89): Bignums/Uint63 primitive-integer axioms of the standard library")
     if not any("Reals" in t for t in ctx.trusted):
@@ -627,6 +655,36 @@ def run_part(ctx, props_file, part=None, oracle=True):
         elif part == "C09":
             oracle_c09(ctx)
     return len(ctx.broken) == n_broken and len(ctx.witnesses) == n_wit
+
+
+def reparse_axioms(ctx):
+    """lib/common.parse_assumptions only sees axioms whose type starts on the same line as the name; Print Assumptions
+    breaks long types onto the next line (sig_forall_dec, functional_extensionality_dep).  Re-read the build log."""
+    import re
+    try:
+        log = open(os.path.join(ctx.workdir, "build.log")).read()
+    except OSError:
+        return
+    cur, mode = None, None
+    for l in log.splitlines():
+        m = re.search(r'ASSUMPTIONS ([A-Za-z0-9_\']+)', l)
+        if m:
+            cur, mode = m.group(1), None
+            ctx.assumption_axioms[cur] = []
+            continue
+        if cur is None:
+            continue
+        if l.startswith("Closed under the global context"):
+            mode = None
+        elif l.startswith("Axioms:"):
+            mode = "ax"
+        elif mode == "ax":
+            m = re.match(r'^([A-Za-z_][A-Za-z0-9_\.\']*)\s*(:|$)', l)
+            if m and not l.startswith(" "):
+                if m.group(1) not in ctx.assumption_axioms[cur]:
+                    ctx.assumption_axioms[cur].append(m.group(1))
+            elif not l.startswith(" "):
+                mode = None
 
 
 def replay_witness(ctx, data):
